@@ -995,7 +995,9 @@ pub fn scenario(rng: &mut Rng, id: usize) -> Option<Start> {
             // fifth rank; the opponent double-pushes beside it
             let (mut q, pf) = hemmed_in(rng, true)?;
             let f = pf?;
-            let g = f + *rng.pick(&[-1i8, 1]);
+            // (in the pinned variant the pawn stands on e5 and the capture must run towards the pinner on g7/h8)
+            let pinned_variant = f == 4 && (q.sq[sqm(6, 6) as usize] & 7 == B || q.sq[sqm(6, 6) as usize] & 7 == Q || q.sq[sqm(7, 7) as usize] & 7 == B || q.sq[sqm(7, 7) as usize] & 7 == Q);
+            let g = if pinned_variant { 5 } else { f + *rng.pick(&[-1i8, 1]) };
             if g < 0 || g > 7 {
                 return None;
             }
@@ -1082,6 +1084,11 @@ pub fn scenario(rng: &mut Rng, id: usize) -> Option<Start> {
 fn hemmed_in(rng: &mut Rng, extra_pawn: bool) -> Option<(RPos, Option<i8>)> {
     for _ in 0..80 {
         let mut p = RPos::empty();
+        // variant: the extra pawn (on e5) is pinned along the diagonal a1-h8 by a bishop/queen beyond f6,
+        // so that its only move will be the e.p. capture along the pin line
+        let pin = extra_pawn && rng.chance(1, 3);
+        let pin_king: Sq = if rng.chance(1, 2) { 0 } else { 9 };
+        let forbidden: u64 = if pin { (bit(9) | bit(18) | bit(27)) & !bit(pin_king) } else { 0 };
         // White's cluster lives in a 3x3 or 4x3 block in the a1 corner (mirrored later by `finish`)
         let w = rng.range(2, 4) as i8;
         let h = rng.range(2, 3) as i8;
@@ -1092,7 +1099,11 @@ fn hemmed_in(rng: &mut Rng, extra_pawn: bool) -> Option<(RPos, Option<i8>)> {
             }
         }
         rng.shuffle(&mut cells);
-        let nmen = rng.range(2, cells.len().min(7));
+        if pin {
+            cells.retain(|s| forbidden & bit(*s) == 0 && *s != pin_king);
+            cells.insert(0, pin_king);
+        }
+        let nmen = rng.range(2, cells.len().min(7).max(2));
         let mut have_q = false;
         for (i, s) in cells.iter().take(nmen).enumerate() {
             let k = if i == 0 {
@@ -1125,9 +1136,19 @@ fn hemmed_in(rng: &mut Rng, extra_pawn: bool) -> Option<(RPos, Option<i8>)> {
         let mut pawn_file = None;
         if extra_pawn {
             // a white pawn on its fifth rank, blocked by a black man, away from the cluster
-            let f = rng.range((w as usize + 1).min(6), 6) as i8;
+            let f = if pin { 4 } else { rng.range((w as usize + 1).min(6), 6) as i8 };
             if p.sq[sqm(f, 4) as usize] != 0 || p.sq[sqm(f, 5) as usize] != 0 {
                 continue;
+            }
+            if pin {
+                if p.sq[sqm(5, 5) as usize] != 0 || p.sq[18] != 0 || p.sq[27] != 0 || (pin_king == 0 && p.sq[9] != 0) {
+                    continue;
+                }
+                let s = if rng.chance(1, 2) { sqm(6, 6) } else { sqm(7, 7) };
+                if p.sq[s as usize] != 0 || p.sq[sqm(6, 6) as usize] != 0 {
+                    continue;
+                }
+                p.sq[s as usize] = pc(*rng.pick(&[B, Q]), BLACK);
             }
             p.sq[sqm(f, 4) as usize] = pc(P, WHITE);
             p.sq[sqm(f, 5) as usize] = pc(*rng.pick(&[P, N, B]), BLACK);
